@@ -1849,6 +1849,47 @@ func (*blockingLog).Close
     assert[notify_first] chClosed(l.notify.barrier) at call Log.Close 1
     assert[notify_twice] ret0 != nil at return 1
 
+// the typed blocking wrapper (typed_blocking.go): the same four methods over a TLog[K,V]; generic bodies, verified once
+// for all instantiations (values of the type parameters are opaque)
+func WrapTBlocking
+    flags noframe only_notify
+    // the notifier starts at the log's NextOffset
+    assert[notify_init] arg0 == next at call notify.NewOffset 1
+
+// the wrapped typed log does not know the notifier (assumed frame, as for Log.Publish)
+iface TLog.Publish
+    assigns gLive, gNext, gMicro, gSize, gKey, gHasValue, gCount, gTotal, elems(messages)
+
+func (*tlogBlocking).Publish
+    flags noframe only_notify
+    requires[notify_ok] notifyWf(l.notify)
+    assert[notify_after]   err == nil && arg0 == l.notify && arg1 == nextOffset at call (*Offset).Set 1
+    assert[notify_failed]  ret0 == OffsetInvalid && ret1 != nil at return 1
+    assert[notify_success] ret0 == nextOffset && ret1 == nil at return 2
+    ensures[notify_wf]     notifyWf(l.notify)
+
+func (*tlogBlocking).ConsumeBlocking
+    flags noframe only_notify
+    requires[notify_ok] notifyWf(l.notify)
+    assert[notify_wait]    arg0 == l.notify && arg1 == ctx && arg2 == offset at call (*Offset).Wait 1
+    assert[notify_waiterr] len(ret1) == 0 && ret2 != nil at return 1
+    assert[notify_consume] arg0 == offset && arg1 == maxCount at call TLog.Consume 1
+    assert[notify_waited]  err == nil at call TLog.Consume 1
+
+func (*tlogBlocking).ConsumeByKeyBlocking
+    flags noframe only_notify
+    requires[notify_ok] notifyWf(l.notify)
+    assert[notify_wait]    arg0 == l.notify && arg1 == ctx && arg2 == offset at call (*Offset).Wait 1
+    assert[notify_waiterr] len(ret1) == 0 && ret2 != nil at return 1
+    assert[notify_consume] arg1 == empty && arg2 == offset && arg3 == maxCount at call TLog.ConsumeByKey 1
+    assert[notify_waited]  err == nil at call TLog.ConsumeByKey 1
+
+func (*tlogBlocking).Close
+    flags noframe only_notify
+    requires[notify_ok] notifyWf(l.notify)
+    assert[notify_first] chClosed(l.notify.barrier) at call TLog.Close 1
+    assert[notify_twice] ret0 != nil at return 1
+
 func (*log).Close
     flags locks only_locks only_sync only_flock noframe
     // C19: Close releases the directory lock
